@@ -303,29 +303,59 @@ void sx_main(void)
 	iv_fd_pump_init(&p);
 	sx_assert(band_in == 1 && band_out == 0, "C17.initial-bands");
 
-	for (i = 0; i < N; i++) {
-		io_error_now = 0;
-		ret = iv_fd_pump_pump(&p);
-		check_after_call(ret);
-		if (ret < 0)
-			break;
-		if (ret == 0) {
-			done = 1;
-			sx_assert(iv_fd_pump_is_done(&p), "C17.is_done-false-after-return-0");
-			/* returns 0 from then on, and touches nothing */
-			if (sx_opt("again", 1)) {
-				int o = outn, c = consumed;
-				ret = iv_fd_pump_pump(&p);
-				sx_assert(ret == 0 && outn == o && consumed == c, "C17.not-idle-after-done");
+	{
+		int round, rounds = (int)sx_opt("pumps", 1);
+
+		for (round = 0; round < rounds; round++) {
+			if (round > 0) {
+				/* a second pump on the same thread, fresh descriptors and a fresh stream: it may
+				 * get its buffer from the per-thread cache the first pump returned its buffer to */
+				sx_cover("pump.second-pump-on-same-thread");
+				from_fd = k_new_generic();
+				to_fd = k_new_generic();
+				inlen = sx_choose(B + 1);
+				for (i = 0; i < inlen; i++)
+					in[i] = (unsigned char)sx_long("in2", 0, 255);
+				consumed = outn = eof_seen = shutdowns = io_error_now = 0;
+				band_in = band_out = -1;
+				pump_pipe = -1;
+				input_dry = 0;
+				done = 0;
+				err_budget = 0;
+				IV_FD_PUMP_INIT(&p);
+				p.from_fd = from_fd;
+				p.to_fd = to_fd;
+				p.cookie = &p;
+				p.set_bands = set_bands;
+				p.flags = relay_flag ? IV_FD_PUMP_FLAG_RELAY_EOF : 0;
+				iv_fd_pump_init(&p);
+				sx_assert(band_in == 1 && band_out == 0, "C17.initial-bands");
 			}
-			break;
+			for (i = 0; i < N; i++) {
+				io_error_now = 0;
+				ret = iv_fd_pump_pump(&p);
+				check_after_call(ret);
+				if (ret < 0)
+					break;
+				if (ret == 0) {
+					done = 1;
+					sx_assert(iv_fd_pump_is_done(&p), "C17.is_done-false-after-return-0");
+					/* returns 0 from then on, and touches nothing */
+					if (sx_opt("again", 1)) {
+						int o = outn, c = consumed;
+						ret = iv_fd_pump_pump(&p);
+						sx_assert(ret == 0 && outn == o && consumed == c, "C17.not-idle-after-done");
+					}
+					break;
+				}
+				sx_assert(!iv_fd_pump_is_done(&p), "C17.is_done-true-while-more-remains");
+			}
+			band_calls = 0;
+			iv_fd_pump_destroy(&p);
+			if (!done)
+				sx_assert(band_in == 0 && band_out == 0, "C17.bands-not-cleared-by-destroy");
 		}
-		sx_assert(!iv_fd_pump_is_done(&p), "C17.is_done-true-while-more-remains");
 	}
-	band_calls = 0;
-	iv_fd_pump_destroy(&p);
-	if (!done)
-		sx_assert(band_in == 0 && band_out == 0, "C17.bands-not-cleared-by-destroy");
 	iv_deinit();
 	/* every buffer / pipe went back (cache purged by the thread's tear-down) */
 	sx_assert(k_count_open(1) == 0, "C18.descriptor-leak-after-deinit");
